@@ -103,7 +103,9 @@ def gen(rng, idx, tier, seed):
         if rng.random() < 0.3:
             nxs = nxs[::-1].copy()
         spec.update(xs=[float(x) for x in xs], nxs=[float(x) for x in nxs],
-                    kind=kind, extrapolate=bool(rng.random() < 0.3))
+                    kind=kind, extrapolate=bool(rng.random() < 0.3),
+                    int_source=bool(mode == 'weights' and
+                                    rng.random() < 0.2))
         if mode in ('filedim', 'interpvars'):
             spec['rank'] = int(rng.integers(1, 5))
             spec['axis'] = int(rng.integers(0, spec['rank']))
@@ -356,6 +358,15 @@ def run(spec, res):
     nontriv = True
     if mode == 'weights':
         xs, nxs = np.array(spec['xs']), np.array(spec['nxs'])
+        if spec.get('int_source'):
+            # an integer-typed source axis (level index, integer pressure
+            # levels) with fractional targets
+            xs = np.round(xs * 3).astype('i8')
+            if np.unique(xs).size == xs.size and xs.size >= 2:
+                nxs = nxs * 3.0
+                facets.append('integer-source-axis')
+            else:
+                xs = np.array(spec['xs'])
         try:
             cu.getinterpweights(xs, nxs, extrapolate=spec['extrapolate'])
         except Exception as e:
@@ -492,6 +503,34 @@ def run(spec, res):
             if np.abs(c0 - const).max() > 1e-5 * const:
                 problems.append('%s: constant field became %r..%r'
                                 % (spec['interptype'], c0.min(), c0.max()))
+            if spec['interptype'] == 'linear' and len(ios['names']) > 1:
+                # a field linear in the (rescaled) sigma mid-points comes
+                # out linear at the target mid-points inside the source range
+                k1 = ios['names'][1]
+                vg0, vg1 = float(f.VGTOP), float(f.VGTOP) + dvg
+                a8 = a.astype('f8')
+                src = (a8 * (101325. - vg0) + vg0 - vg1) / (101325. - vg1) \
+                    if dvg else a8
+                zs = (src[:-1] + src[1:]) / 2.
+                nzs = (b.astype('f8')[:-1] + b.astype('f8')[1:]) / 2.
+                f2 = gen_ioapi.build(ios)
+                f2.variables[k1][...] = (2.5 * zs + 1.0)[None, :, None, None]
+                if dvg:
+                    o2 = f2.interpSigma(b, vgtop=vg1, interptype='linear')
+                else:
+                    o2 = f2.interpSigma(b, interptype='linear')
+                res.hook('interpSigma.return')
+                g2 = np.asarray(o2.variables[k1][...], 'f8')[0, :, 0, 0]
+                inside = (nzs >= zs.min()) & (nzs <= zs.max())
+                want = 2.5 * nzs + 1.0
+                if inside.any() and np.abs(g2[inside] - want[inside]).max() \
+                        > 2e-5 * (1 + np.abs(want).max()):
+                    j = int(np.argmax(np.abs(np.where(inside, g2 - want, 0))))
+                    problems.append(
+                        'linear%s: a profile linear in sigma is not '
+                        'reproduced at target layer %d: got %r expected %r'
+                        % (' with vgtop=%g' % vg1 if dvg else '', j, g2[j],
+                           want[j]))
             if spec['interptype'] == 'conserve' and not dvg:
                 dpi = -np.diff(a.astype('f8'))
                 dpo = -np.diff(b.astype('f8'))
